@@ -10,7 +10,7 @@ from .mutate import mutate
 LEVEL = 'fault_enumeration'
 BUDGET_S = {'quick': 170, 'thorough': 1800}
 BOUNDS = {
-    'quick': 'universe U7; skeleton set A; crash point symbolic: any statement boundary of the root function or of any '
+    'quick': 'universe U7; skeleton set A; an OSError while the cache file is written (open, data, rename) after the root returned (cachewrite families); crash point symbolic: any statement boundary of the root function or of any '
              'nested function (before each statement / after the last), on history prefixes none, B, B.M (deleted / '
              'tampered outputs, foreign files at targets, file<->dir swaps); then one more build (twin comparison)',
     'thorough': 'skeleton sets A+B, wider holes, two mutations before the failing build',
@@ -20,7 +20,7 @@ ASSUMPTIONS = [
     'different call, not a nondeterministic function)',
     'every write gets an mtime different from earlier mtimes of that path',
 ]
-WITNESSES = {'quick': ['rolled-back', 'rollback-restored-overwritten-file', 'rollback-after-cache-reuse', 'twin-compared'],
+WITNESSES = {'quick': ['rolled-back', 'rollback-restored-overwritten-file', 'rollback-after-cache-reuse', 'twin-compared', 'fault-in-cache-write'],
              'thorough': ['rolled-back', 'twin-compared']}
 
 
@@ -39,6 +39,11 @@ def families(tier):
         {'name': 'A8', 'params': {'hist': 'BF', 'kinds': ['is_dir']}},
     ]
     q.append({'name': 'backups', 'params': {}, 'weight': 1})
+    # '... or while the cache file is being written': an OSError at the open / data write / final rename of the cache write
+    q.append({'name': 'cachewrite', 'params': {'skel': 'A3', 'hist': 'X', 'kinds': ['is_dir'], 'roles': ['o'], 'targets': ['o/d/g'],
+                                               'modes': ['ok']}, 'weight': 1})
+    q.append({'name': 'cachewrite', 'params': {'skel': 'A3', 'hist': 'BMX', 'kinds': ['is_dir'], 'roles': ['o'], 'targets': ['o/d/g'],
+                                               'modes': ['ok'], 'mut_paths': ['o/d/g', 'o/d']}, 'weight': 1})
     q.append({'name': 'P2', 'params': {'hist': 'BF', 'universe': ['o', 'o/d', 'o/dx']}, 'weight': 1})
     q.append({'name': 'A8b', 'params': {'hist': 'BMF', 'kinds': ['is_dir'], 'mut_paths': ['o/d/z', 'o/d/e'], 'catch': False}, 'weight': 1})
     q.append({'name': 'S1', 'params': {'hist': 'F'}, 'weight': 1})
@@ -156,6 +161,9 @@ def backups_family(eng, P, prop='C02'):
 def harness(eng, fam, P):
     if fam == 'backups':
         return backups_family(eng, P)
+    if fam == 'cachewrite':
+        from . import c14
+        return c14.harness(eng, P['skel'], dict(P, prop='C02', only_ops=('gzip-w', 'gzip-data', 'replace')))
     bodies = skeleton(eng, fam, P)
     shared = {}
     progs = [Program(eng, b, shared) for b in bodies]
